@@ -199,6 +199,8 @@ pub struct WorldCfg {
     pub tracers: usize,
     /// Further addresses that answer as targets at the end of the same path.
     pub alt_targets: Vec<IpAddr>,
+    /// Intervals (virtual ns since the virtual epoch) during which the network drops everything.
+    pub blackouts: Vec<(u64, u64)>,
 }
 
 // ------------------------------------------------------------------------------------------------
@@ -653,6 +655,10 @@ impl WorldInner {
         let topo = self.cfg.topo.clone();
         let mut out = Vec::new();
         if (wp.dst != topo.target_addr() && !self.cfg.alt_targets.contains(&wp.dst)) || wp.ttl == 0 {
+            return (out, None);
+        }
+        let rel = wp.t.saturating_sub(crate::clock::EPOCH_NS);
+        if self.cfg.blackouts.iter().any(|(a, b)| rel >= *a && rel < *b) {
             return (out, None);
         }
         // flow tuple for ECMP
